@@ -3,6 +3,7 @@ package main
 import (
 	"fmt"
 	"go/token"
+	"go/types"
 	"strings"
 
 	"golang.org/x/tools/go/ssa"
@@ -75,6 +76,9 @@ func runC05(c *Ctx) {
 	}
 	c05Relational(c, arms)
 	c05Equality(c, arms)
+	// "regardless of how a number is written": the number a literal or a data value denotes enters exactly (shared
+	// with C04)
+	c04NoFloat(c, arms, "C05.numbers-enter-exactly")
 	// "no matter how they are written": a number keeps its exact value through the sign operators (a negation done in a
 	// 16-digit context makes distinct negative numbers equal) and a literal's text is the text as written
 	if parms, und := c.prefixDispatch(); und == "" {
@@ -204,7 +208,11 @@ func c05Relational(c *Ctx, arms map[int64]OpArm) {
 	c.R.Floor(rule, 12)
 }
 
-func c05Equality(c *Ctx, arms map[int64]OpArm) {
+func c05Equality(c *Ctx, arms map[int64]OpArm) { c05EqualityAs(c, arms, "") }
+
+// c05EqualityAs: with looseNullRule set, only the "null-like operands are loosely equal" obligations are emitted, under
+// that rule name (shared with C16: a typed nil pointer equals null).
+func c05EqualityAs(c *Ctx, arms map[int64]OpArm, looseNullRule string) {
 	eq, ne := arms[c.SK("SK_EqualsEquals")], arms[c.SK("SK_ExclamationEquals")]
 	seq, sne := arms[c.SK("SK_EqualsEqualsEquals")], arms[c.SK("SK_ExclamationEqualsEquals")]
 	// the function each handler returns, and whether it is negated
@@ -334,6 +342,10 @@ func c05Equality(c *Ctx, arms map[int64]OpArm) {
 
 	const re = "C05.equality-predicate"
 	loose, strict := analyseArm(eq).fn, analyseArm(seq).fn
+	if looseNullRule != "" {
+		c05LooseNull(c, loose, looseNullRule)
+		return
+	}
 	for _, fe := range []struct {
 		name string
 		f    *ssa.Function
@@ -351,7 +363,7 @@ func c05Equality(c *Ctx, arms map[int64]OpArm) {
 		pos := c.P.Pos(f.Pos())
 		base := []Pin{
 			pinCall("formula.IsNull", cFalse, nil),
-			pinIfaceEq(ops[0], ops[1], false),
+			c.pinIfaceEq(ops[0], ops[1], false),
 			pinTypeOfEq(true),
 		}
 		// numbers: (F,T,F) over Cmp
@@ -396,6 +408,7 @@ func c05Equality(c *Ctx, arms map[int64]OpArm) {
 		}
 		c.R.Check(re, fe.name+":string", pos, okStr, "string equality must be Go `==` on the two operands' strings on every path of the string arm (no numeric or other coercion first: '1.0' and '1' are different strings)")
 	}
+	c05LooseNull(c, loose, re)
 	// strict: same-kind gate
 	const rs = "C05.strict-same-kind"
 	if strict != nil {
@@ -409,18 +422,18 @@ func c05Equality(c *Ctx, arms map[int64]OpArm) {
 			c.R.Check(rs, "null-null", pos, ok && b, "both operands null must be strictly equal")
 			// one null, other not, different types: false
 			r = c.foldWith(f, 1, pinCall("formula.IsNull", cTrue, func(call *ssa.Call) bool { return call.Call.Args[0] == ssa.Value(ops[0]) }),
-				pinCall("formula.IsNull", cFalse, nil), pinIfaceEq(ops[0], ops[1], false), pinTypeOfEq(false))
+				pinCall("formula.IsNull", cFalse, nil), c.pinIfaceEq(ops[0], ops[1], false), pinTypeOfEq(false))
 			b, ok = boolResult(r, 0)
 			c.R.Check(rs, "null-nonnull", pos, ok && !b, "null === non-null must be false")
 			// different dynamic types: false whatever the kinds are
 			for _, k := range []string{"*decimal.Big", "string", "bool", "other"} {
-				r = c.foldWith(f, 1, pinCall("formula.IsNull", cFalse, nil), pinIfaceEq(ops[0], ops[1], false), pinTypeOfEq(false), pinTypeCase(ops[0], k),
+				r = c.foldWith(f, 1, pinCall("formula.IsNull", cFalse, nil), c.pinIfaceEq(ops[0], ops[1], false), pinTypeOfEq(false), pinTypeCase(ops[0], k),
 					pinCall("decimal.Big).Cmp", cInt(0), nil))
 				b, ok = boolResult(r, 0)
 				c.R.Check(rs, "different-types:"+k, pos, ok && !b, "operands of different dynamic types must not be strictly equal (left kind "+k+"); the per-kind comparison must sit behind the identical-type test")
 			}
 			// same type, unsupported kind: false
-			r = c.foldWith(f, 1, pinCall("formula.IsNull", cFalse, nil), pinIfaceEq(ops[0], ops[1], false), pinTypeOfEq(true), pinTypeCase(ops[0], "other"))
+			r = c.foldWith(f, 1, pinCall("formula.IsNull", cFalse, nil), c.pinIfaceEq(ops[0], ops[1], false), pinTypeOfEq(true), pinTypeCase(ops[0], "other"))
 			b, ok = boolResult(r, 0)
 			c.R.Check(rs, "fallthrough-false", pos, ok && !b, "values of a kind other than number, boolean, string (and not identical) fall through to false")
 			// the gate compares reflect.TypeOf of operand 1 with that of operand 2
@@ -441,7 +454,7 @@ func c05Equality(c *Ctx, arms map[int64]OpArm) {
 			})
 			c.R.Check(rs, "type-gate", pos, gate, "strict equality needs the test reflect.TypeOf(a) == reflect.TypeOf(b) over its two operands")
 			// bool kind compares the asserted booleans
-			r = c.foldWith(f, 1, pinCall("formula.IsNull", cFalse, nil), pinIfaceEq(ops[0], ops[1], false), pinTypeOfEq(true), pinTypeCase(ops[0], "bool"))
+			r = c.foldWith(f, 1, pinCall("formula.IsNull", cFalse, nil), c.pinIfaceEq(ops[0], ops[1], false), pinTypeOfEq(true), pinTypeCase(ops[0], "bool"))
 			okB := false
 			for _, ret := range r.Returns {
 				if bo, ok := ret.Results[0].(*ssa.BinOp); ok && bo.Op == token.EQL {
@@ -451,40 +464,40 @@ func c05Equality(c *Ctx, arms map[int64]OpArm) {
 				}
 			}
 			// ... or, as the loose form does, their images under the number coercion (true is 1, false is 0:
-		// C05.equality-predicate reads that table) compared with Cmp(..) == 0
-		if !okB {
-			coerce := c.fn("convToNumber")
-			for _, ret := range r.Returns {
-				bo, ok := ret.Results[0].(*ssa.BinOp)
-				if !ok || bo.Op != token.EQL || coerce == nil {
-					continue
-				}
-				if k, isK := constIntArg(bo.Y); !isK || k != 0 {
-					continue
-				}
-				cmp, ok := bo.X.(*ssa.Call)
-				if !ok || !strings.HasSuffix(callName(cmp), "decimal.Big).Cmp") || len(cmp.Call.Args) != 2 {
-					continue
-				}
-				side := func(v ssa.Value) int {
-					cl, ok := v.(*ssa.Call)
-					if !ok || calleeOf(cl) != coerce || len(cl.Call.Args) != 1 {
+			// C05.equality-predicate reads that table) compared with Cmp(..) == 0
+			if !okB {
+				coerce := c.fn("convToNumber")
+				for _, ret := range r.Returns {
+					bo, ok := ret.Results[0].(*ssa.BinOp)
+					if !ok || bo.Op != token.EQL || coerce == nil {
+						continue
+					}
+					if k, isK := constIntArg(bo.Y); !isK || k != 0 {
+						continue
+					}
+					cmp, ok := bo.X.(*ssa.Call)
+					if !ok || !strings.HasSuffix(callName(cmp), "decimal.Big).Cmp") || len(cmp.Call.Args) != 2 {
+						continue
+					}
+					side := func(v ssa.Value) int {
+						cl, ok := v.(*ssa.Call)
+						if !ok || calleeOf(cl) != coerce || len(cl.Call.Args) != 1 {
+							return -1
+						}
+						switch {
+						case c.derivedFrom(cl.Call.Args[0], ops[0]):
+							return 0
+						case c.derivedFrom(cl.Call.Args[0], ops[1]):
+							return 1
+						}
 						return -1
 					}
-					switch {
-					case c.derivedFrom(cl.Call.Args[0], ops[0]):
-						return 0
-					case c.derivedFrom(cl.Call.Args[0], ops[1]):
-						return 1
+					if a, b := side(cmp.Call.Args[0]), side(cmp.Call.Args[1]); a >= 0 && b >= 0 && a != b {
+						okB = true
 					}
-					return -1
-				}
-				if a, b := side(cmp.Call.Args[0]), side(cmp.Call.Args[1]); a >= 0 && b >= 0 && a != b {
-					okB = true
 				}
 			}
-		}
-		c.R.Check(rs, "bool-kind", pos, okB, "booleans of identical type compare with Go == on the two values")
+			c.R.Check(rs, "bool-kind", pos, okB, "booleans of identical type compare with Go == on the two values")
 		}
 	}
 	c.R.Floor(re, 6)
@@ -542,8 +555,19 @@ func (c *Ctx) derivedFrom(v ssa.Value, p *ssa.Parameter) bool {
 }
 
 // pinIfaceEq pins `a == b` on the two interface operands themselves.
-func pinIfaceEq(a, b ssa.Value, val bool) Pin {
+func (c *Ctx) pinIfaceEq(a, b ssa.Value, val bool) Pin {
 	return func(v ssa.Value) (constantValue, bool) {
+		// `identical(a, b)`: a module helper that is `a == b` behind the tests that keep Go from panicking on
+		// operands it cannot compare
+		if call, isCall := v.(*ssa.Call); isCall {
+			if g := calleeOf(call); g != nil && c.inModule(g) && len(call.Call.Args) == 2 && c.guardedIdentity(g) {
+				x, y := stripIface(call.Call.Args[0]), stripIface(call.Call.Args[1])
+				if (x == a && y == b) || (x == b && y == a) {
+					return boolConst(val), true
+				}
+			}
+			return nil, false
+		}
 		bo, ok := v.(*ssa.BinOp)
 		if !ok || (bo.Op != token.EQL && bo.Op != token.NEQ) {
 			return nil, false
@@ -651,4 +675,94 @@ func (c *Ctx) relationalViaKernel(rule, symbol string, vec [3]bool, h *ssa.Funct
 	okS, whyS := kernelReturns("string", "strings.Compare")
 	c.R.Check(rule, "string-operator:"+symbol, c.P.Pos(g.Pos()), okS, "strings must compare byte-wise (strings.Compare(left, right) or Go's `"+symbol+"`): "+whyS)
 	return true
+}
+
+var guardedIdentityCache = map[*ssa.Function]bool{}
+
+// guardedIdentity: g(p, q interface) bool returns p == q on every path that does not return the constant false, and
+// for operands of one comparable dynamic type it does reach that comparison (the early `false`s are taken only for
+// operands of different types or of a type Go cannot compare - for which `p == q` is false or panics).
+func (c *Ctx) guardedIdentity(g *ssa.Function) bool {
+	if v, ok := guardedIdentityCache[g]; ok {
+		return v
+	}
+	res := false
+	defer func() { guardedIdentityCache[g] = res }()
+	if len(g.Blocks) == 0 || len(g.Params) != 2 || g.Signature.Results().Len() != 1 || !isBoolType(g.Signature.Results().At(0).Type()) {
+		return false
+	}
+	for _, p := range g.Params {
+		if _, isI := p.Type().Underlying().(*types.Interface); !isI {
+			return false
+		}
+	}
+	isCmp := func(v ssa.Value) bool {
+		bo, ok := v.(*ssa.BinOp)
+		return ok && bo.Op == token.EQL && (bo.X == ssa.Value(g.Params[0]) && bo.Y == ssa.Value(g.Params[1]) || bo.X == ssa.Value(g.Params[1]) && bo.Y == ssa.Value(g.Params[0]))
+	}
+	shape, ncmp := true, 0
+	instrs(g, func(b *ssa.BasicBlock, i int, in ssa.Instruction) {
+		ret, ok := in.(*ssa.Return)
+		if !ok {
+			return
+		}
+		if k, isK := ret.Results[0].(*ssa.Const); isK && k.Value != nil && k.Value.String() == "false" {
+			return
+		}
+		if isCmp(ret.Results[0]) {
+			ncmp++
+			return
+		}
+		shape = false
+	})
+	if !shape || ncmp == 0 {
+		return false
+	}
+	// same comparable type: only the comparison is returned
+	typeFacts := func(v ssa.Value) (constantValue, bool) {
+		switch x := v.(type) {
+		case *ssa.Call:
+			if x.Call.IsInvoke() && x.Call.Method.Name() == "Comparable" {
+				return boolConst(true), true
+			}
+		case *ssa.BinOp:
+			if x.Op == token.EQL || x.Op == token.NEQ {
+				cx, okx := x.X.(*ssa.Call)
+				_, isNil := x.Y.(*ssa.Const)
+				if okx && isNil && isNilConst(x.Y) && callName(cx) == "reflect.TypeOf" {
+					return boolConst(x.Op == token.NEQ), true
+				}
+			}
+		}
+		return nil, false
+	}
+	r := c.foldWith(g, 0, pinTypeOfEq(true), typeFacts)
+	if len(r.Returns) == 0 {
+		return false
+	}
+	for _, ret := range r.Returns {
+		if !isCmp(ret.Results[0]) {
+			return false
+		}
+	}
+	res = true
+	return true
+}
+
+// c05LooseNull: two null-like operands (null, a missing entry, a typed nil pointer) are loosely equal, whatever their
+// dynamic types: with the null test answering true for both and the identity test false, the loose equality is true.
+func c05LooseNull(c *Ctx, loose *ssa.Function, rule string) {
+	if loose == nil {
+		c.R.Undecided(rule, "loose:null-null", "-", "loose equality function not found")
+		return
+	}
+	ops := operandParams(loose)
+	if len(ops) != 2 {
+		return
+	}
+	for _, k := range []string{"nil", "other"} {
+		r := c.foldWith(loose, 1, pinCall("formula.IsNull", cTrue, nil), c.pinIfaceEq(ops[0], ops[1], false), pinTypeOfEq(false), pinTypeCase(ops[0], k))
+		b, ok := boolResult(r, 0)
+		c.R.Check(rule, "loose:null-null:"+k, c.P.Pos(loose.Pos()), ok && b, "two null-like operands (null, a missing entry, a typed nil pointer) must be loosely equal although they are not identical values: the null test must stand beside the identity test (left operand: "+k+")")
+	}
 }
